@@ -47,10 +47,7 @@ func contextSequences(n int) [][]int {
 	return out
 }
 
-type reuseRef struct {
-	want  string
-	exact bool
-}
+type reuseRef = refText
 
 // reuseStep is the verdict of one call of a sequence.
 type reuseStep struct {
@@ -66,7 +63,7 @@ func runSequence(t string, seq []int, refs []reuseRef) []reuseStep {
 	for i, wi := range seq {
 		w := worlds[wi]
 		out, _, pn := evalTemplateWith(ev, w.ctx, t)
-		f := judgeText(t, out, pn, refs[wi].want, refs[wi].exact)
+		f := judgeText(t, out, pn, refs[wi])
 		if f == nil {
 			continue
 		}
@@ -93,7 +90,8 @@ func runSequence(t string, seq []int, refs []reuseRef) []reuseStep {
 func reuseRefs(t string) []reuseRef {
 	refs := make([]reuseRef, len(worlds))
 	for i, w := range worlds {
-		refs[i].want, refs[i].exact, _ = refTemplateIn(w, t)
+		refs[i] = refOf(w, t)
+		refs[i].exprs = nil
 	}
 	return refs
 }
@@ -111,7 +109,7 @@ func seqNames(seq []int) []string {
 func reuseClasses(t string, seqs [][]int) (classes []string, first map[string]reuseStep, firstSeq map[string][]int, differs bool) {
 	refs := reuseRefs(t)
 	for _, r := range refs[1:] {
-		if r != refs[0] {
+		if r.want != refs[0].want || r.exact != refs[0].exact {
 			differs = true
 		}
 	}
@@ -239,8 +237,8 @@ func replayReuse(rp replay) (string, bool) {
 	for i, wi := range seq {
 		w := worlds[wi]
 		out, failed, pn := evalTemplateWith(ev, w.ctx, rp.S)
-		fmt.Fprintf(&desc, "call %d, context allowing %s: %q (error: %v) %s; statement's rule: %q (whole text specified: %v)\n", i+1, w.name, out, failed, pn, refs[wi].want, refs[wi].exact)
-		if f := judgeText(rp.S, out, pn, refs[wi].want, refs[wi].exact); f != nil {
+		fmt.Fprintf(&desc, "call %d, context allowing %s: %q (error: %v) %s; statement's rule: %q (every `@(` closed: %v)\n", i+1, w.name, out, failed, pn, refs[wi].want, refs[wi].exact)
+		if f := judgeText(rp.S, out, pn, refs[wi]); f != nil {
 			fmt.Fprintf(&desc, "PROBLEM %s: %s\n", f.class, f.what)
 			violated = true
 		}
